@@ -229,10 +229,11 @@ def key_tok(k):
     return "k" + hx(k.encode("utf-8"))
 
 
-def mk_line(kind, its, keys=None):
+def mk_line(kind, its, keys=None, ctor=None):
+    word = kind + "d" if ctor == "default" and kind in ("array", "object") else kind
     if kind in ("object", "map"):
-        return " ".join([kind] + ["%s=%s" % (key_tok(k), tok) for k, (tok, _) in zip(keys, its)])
-    return " ".join([kind] + [tok for tok, _ in its])
+        return " ".join([word] + ["%s=%s" % (key_tok(k), tok) for k, (tok, _) in zip(keys, its)])
+    return " ".join([word] + [tok for tok, _ in its])
 
 
 def mk_case(kind, its, keys=None, tag=None):
@@ -244,6 +245,9 @@ def parse_corpus(line):
     """rebuild the case description from a protocol line (corpus / replay)"""
     toks = line.split()
     kind = toks[0]
+    ctor = None
+    if kind in ("arrayd", "objectd"):
+        kind, ctor = kind[:-1], "default"
     if kind == "batch":
         entries, cur = [], []
         for t in toks[1:]:
@@ -267,7 +271,7 @@ def parse_corpus(line):
             keys.append(bytes.fromhex(k[1:]).decode("utf-8"))
         tag, rest = t.split(":", 1)
         its.append((t, rest if tag in ("v", "r", "t") else None))
-    return {"kind": kind, "line": line, "items": its, "keys": keys if kind in ("object", "map") else None, "tag": "corpus"}
+    return {"kind": kind, "line": line, "items": its, "keys": keys if kind in ("object", "map") else None, "tag": "corpus", "ctor": ctor}
 
 
 SEQ_KINDS = ["tuple", "slice", "vec", "arr"]
@@ -360,6 +364,13 @@ def gen_cases(ctx):
             subs.append(sub)
         line = "batch " + " | ".join("m%s %s" % (hx(s["method"].encode("utf-8")), s["line"]) for s in subs)
         cases.append({"kind": "batch", "line": line.strip(), "entries": subs, "tag": "batch"})
+    # a third of the plain builder histories use a builder obtained through `Default` (what `std::mem::take` leaves behind)
+    # instead of `new()`: the two must be the same builder
+    for c in cases:
+        if c["kind"] in ("array", "object") and c.get("ctor") is None and rng.random() < 0.33:
+            c["ctor"] = "default"
+            word, _, rest = c["line"].partition(" ")
+            c["line"] = (c["kind"] + "d" + (" " + rest if rest else "")).strip()
     return cases
 
 
@@ -521,7 +532,7 @@ def without_failed_inserts(case):
     keep = [i for i, (_, t) in enumerate(case["items"]) if t is not None]
     its = [case["items"][i] for i in keep]
     keys = None if case["keys"] is None else [case["keys"][i] for i in keep]
-    return dict(case, items=its, keys=keys, line=mk_line(case["kind"], its, keys))
+    return dict(case, items=its, keys=keys, line=mk_line(case["kind"], its, keys, case.get("ctor")))
 
 
 def strip_case(case):
@@ -542,7 +553,7 @@ def shrink(case, impl, keep_failing):
                 continue
             keys = None if cur["keys"] is None else cur["keys"][:i] + cur["keys"][i + 1:]
             cand = dict(cur, items=its, keys=keys)
-            cand["line"] = mk_line(cur["kind"], its, keys)
+            cand["line"] = mk_line(cur["kind"], its, keys, cur.get("ctor"))
             if keep_failing and not has_failed_insert(cand):
                 continue
             rc, out = vlib.sh([impl], input=cand["line"] + "\n")
